@@ -2,7 +2,8 @@
 Require Import FastZ.
 From Dashu Require Import Base.Prelude Int.ReprOrdModel Float.FloatOrdModel Ratio.RatioOrdModel.
 From Dashu Require Import Int.DivSpec Int.GrlSpec Int.ReprOrdArith2Model Cross.XLog2Model Float.DigitsUbModel Float.FloatOrdProducers2Model.
-From DashuGen Require Import CmpGen DigitsEstGen.
+From Dashu Require Import Int.ReprOrdArith3Model Int.HashSeqModel.
+From DashuGen Require Import CmpGen DigitsEstGen HashGen.
 Extraction "model.ml"
   layout_ok repr_of_layout words_of canonicalb repr_eq ubig_cmp ibig_cmp abs_cmp abs_eq hash_input rvalue
   ones ones_pinned from_buffer from_dword rclone rclone_from
@@ -10,4 +11,6 @@ Extraction "model.ml"
   q_repr_eq q_repr_cmp rbig_eq rbig_abs_eq qcmp_spec qeq_spec qabs reducedb relaxed_ok
   fbig_eq_gen repr_cmp_same_base_gen q_repr_eq_gen q_repr_cmp_gen rbig_eq_gen rbig_abs_eq_gen rbig_hash_fields_gen
   store_fit rlen ibig_bit ibig_not ibig_shift ubig_div_rem ubig_div ubig_rem ibig_divform form_spec
-  digits_ub_est digits_lb_est f_of_bits f_to_bits f32_decode log2_bound_check fprod_asis.
+  digits_ub_est digits_lb_est f_of_bits f_to_bits f32_decode log2_bound_check fprod_asis
+  repr_gcd repr_gcd_ext repr_sqrt repr_sqrt_rem repr_nth_root repr_ipow repr_parse
+  hash_fields repr_hash_steps_gen repr_hash rbig_hash sign_disc_gen typed_cmp_gen ibig_cmp_gen as_typed.
